@@ -13,6 +13,10 @@ import (
 // burst of elements is put and exactly that many consumer returns must follow. A watchdog
 // that fires is conclusive only in the lost-wake-up constellation (see diagnoseStall).
 func wakeCase(c *vlib.Ctx, kind int, i int, r *vlib.Rand) {
+	section := "wake-" + []string{"rq", "dq"}[kind]
+	if skipAbandoned(c, section, i) {
+		return
+	}
 	if tooManyStalls() {
 		c.Inconclusive(fmt.Sprintf("wake-%s#%d", map[int]string{0: "rq", 1: "dq"}[kind], i), "skipped: blocking-Get case after three stalls in this process")
 		return
@@ -23,18 +27,28 @@ func wakeCase(c *vlib.Ctx, kind int, i int, r *vlib.Rand) {
 	T := q.name()
 	lanes := q.lanes()
 	base := countParked(q.parkFrame())
+	installGuard(q, 1024) // at most 24 rounds × 5 puts: more Overflowed calls are a runaway eviction loop
 	results := make(chan interface{}, 64)
+	quit := make(chan struct{}) // closed when the case ends: consumers must not outlive it spinning or blocked on results
+	defer close(quit)
 	var delivered int64
-	var exited int32
 	for ci := 0; ci < C; ci++ {
 		go func() {
 			for {
 				v := q.get()
 				atomic.AddInt64(&delivered, 1)
-				results <- v
-				if _, ok := v.(pillT); ok {
-					atomic.AddInt32(&exited, 1)
+				select {
+				case results <- v:
+				case <-quit:
 					return
+				}
+				if _, ok := v.(pillT); ok || v == nil {
+					return // a pill, or a blocking Get that came back empty-handed (reported by the case): never spin on it
+				}
+				select {
+				case <-quit:
+					return
+				default:
 				}
 			}
 		}()
@@ -53,6 +67,33 @@ func wakeCase(c *vlib.Ctx, kind int, i int, r *vlib.Rand) {
 		} else {
 			c.Inconclusive(caseID, fmt.Sprintf("watchdog %v fired (bare timeout) in %s", watchdog, phase))
 		}
+		noteSectionStall(c, section, caseID)
+	}
+	// every library call made by this goroutine is bounded: a put that does not come back (or
+	// whose eviction loop had to be aborted) ends the case
+	putBounded := func(force bool, lane int, v interface{}) (bool, bool) {
+		res := new(bool) // written by the call's goroutine, read only if it came back
+		o := guardCall(curWatchdog(), func() {
+			if force {
+				*res = q.putForce(lane, v)
+			} else {
+				*res = q.put(lane, v)
+			}
+		})
+		o.rethrow()
+		name := map[bool]string{false: "Put", true: "PutForce"}[force]
+		if o.Runaway {
+			c.Fail(T+".PutForce:eviction-runaway", "Overflowed was invoked more than 1024 times by one forced put: the eviction loop does not terminate (aborted by the monitor)", map[string]interface{}{"params": params, "ops": log})
+			noteSectionStall(c, section, caseID)
+			return false, false
+		}
+		if !o.Returned {
+			atomic.AddInt32(&stallsSeen, 1)
+			c.Inconclusive(caseID, fmt.Sprintf("%s%d did not return within the watchdog %v; goroutine abandoned", name, lane+1, watchdog))
+			noteSectionStall(c, section, caseID)
+			return false, false
+		}
+		return *res, true
 	}
 	recv := func() (interface{}, bool) {
 		t := time.NewTimer(curWatchdog())
@@ -84,11 +125,9 @@ func wakeCase(c *vlib.Ctx, kind int, i int, r *vlib.Rand) {
 			seq++
 			id := mkID(lane, 0, seq)
 			force := r.Intn(3) == 0
-			var ok bool
-			if force {
-				ok = q.putForce(lane, id)
-			} else {
-				ok = q.put(lane, id)
+			ok, returned := putBounded(force, lane, id)
+			if !returned {
+				return
 			}
 			log = append(log, fmt.Sprintf("%s%d(%s)=%v", map[bool]string{false: "Put", true: "PutForce"}[force], lane+1, fmtID(id), ok))
 			if !ok {
@@ -128,13 +167,27 @@ func wakeCase(c *vlib.Ctx, kind int, i int, r *vlib.Rand) {
 		}
 		c.Count("wake_rounds", 1)
 	}
+	if bad {
+		// a violation is reported; the consumers that are still parked get their pills on a
+		// best-effort basis (they also end at the closed quit channel), nothing is waited for
+		for k := 0; k < C; k++ {
+			if _, returned := putBounded(false, lanes-1, pill); !returned {
+				break
+			}
+		}
+		return
+	}
 	// stop the consumers: one pill at a time (works for capacity 1 as well)
 	for k := 0; k < C; k++ {
-		if !q.put(lanes-1, pill) {
+		ok, returned := putBounded(false, lanes-1, pill)
+		if !returned {
+			return
+		}
+		if !ok {
 			c.Fail(T+".Put:wrong-return", "Put on an empty queue returned false", map[string]interface{}{"params": params, "ops": log})
 			return
 		}
-		for {
+		for n := 0; ; n++ {
 			v, ok := recv()
 			if !ok {
 				stalled("pills")
@@ -142,6 +195,9 @@ func wakeCase(c *vlib.Ctx, kind int, i int, r *vlib.Rand) {
 			}
 			if _, isPill := v.(pillT); isPill {
 				break
+			}
+			if n > 64 {
+				return // already reported below; never loop on a consumer that keeps returning something else
 			}
 			if !bad {
 				bad = true
